@@ -1,5 +1,242 @@
-"""Thorough tier additions (controls, witnesses) - filled in later."""
+"""Thorough tier additions (all static: nothing of /repo is executed).
+
+1. type-level witnesses: compile_fail doctests (with compiling twins) showing that an external crate cannot write the
+   private state the rules rely on (rng, trees, roadmap, resolution fraction) — run with cargo +nightly test --doc;
+2. mutation adequacy of the checker on the *current* tree: every applicable mutant of selftest/cases.py for this
+   property is applied to a scratch copy of /repo (outside /repo and /verif, removed afterwards), re-extracted and
+   re-checked; a rule that matches nothing cannot pass vacuously.  A missed mutant is reported in the evidence and on
+   stdout as a weakness of the checker; it is not a violation of the property by /repo;
+3. sibling cross-check of the JS bindings for C19 (argument order / lossless conversions).
+"""
+import importlib
+import os
+import re
+import shutil
+import subprocess
+import sys
+import tempfile
+import time
+
+from . import extract
+from .core import RuleResult, Violation
+
+VERIF = extract.VERIF
+WITNESS_PROPS = {
+    'C07': ['rng'],
+    'C15': ['tree'],
+    'C18': ['roadmap', 'node', 'clone'],
+    'C02': ['tree'],
+    'C06': ['fraction'],
+    'C03': ['fraction'],
+}
+
+WITNESS_LIB = r'''//! Type-level witnesses for the OxMPL verification (generated; see /verif/oxa/thorough.py).
+//! Every `compile_fail,E0xxx` block has a compiling twin that differs only by the offending line.
+
+/// rng: an external crate cannot replace or read a planner's generator.
+/// ```compile_fail,E0616
+/// use oxmpl::base::{planner::PlannerConfig, space::RealVectorStateSpace, state::RealVectorState};
+/// use oxmpl_witness::G;
+/// let mut p: oxmpl::geometric::RRT<RealVectorState, RealVectorStateSpace, G> =
+///     oxmpl::geometric::RRT::new(0.5, 0.0, &PlannerConfig { seed: Some(1) });
+/// p.rng = None; // private field
+/// ```
+/// ```
+/// use oxmpl::base::{planner::PlannerConfig, space::RealVectorStateSpace, state::RealVectorState};
+/// use oxmpl_witness::G;
+/// let mut p: oxmpl::geometric::RRT<RealVectorState, RealVectorStateSpace, G> =
+///     oxmpl::geometric::RRT::new(0.5, 0.0, &PlannerConfig { seed: Some(1) });
+/// p.goal_bias = 0.1; // public field
+/// ```
+pub struct WitnessRng;
+
+/// tree: an external crate cannot touch a planner's tree or problem definition.
+/// ```compile_fail,E0616
+/// use oxmpl::base::{planner::PlannerConfig, space::RealVectorStateSpace, state::RealVectorState};
+/// use oxmpl_witness::G;
+/// let mut p: oxmpl::geometric::RRTStar<RealVectorState, RealVectorStateSpace, G> =
+///     oxmpl::geometric::RRTStar::new(0.5, 0.0, 1.0, &PlannerConfig { seed: Some(1) });
+/// p.tree.clear(); // private field
+/// ```
+/// ```compile_fail,E0616
+/// use oxmpl::base::{planner::PlannerConfig, space::RealVectorStateSpace, state::RealVectorState};
+/// use oxmpl_witness::G;
+/// let mut p: oxmpl::geometric::RRTConnect<RealVectorState, RealVectorStateSpace, G> =
+///     oxmpl::geometric::RRTConnect::new(0.5, 0.0, &PlannerConfig { seed: Some(1) });
+/// p.problem_def = None; // private field
+/// ```
+/// ```
+/// use oxmpl::base::{planner::PlannerConfig, space::RealVectorStateSpace, state::RealVectorState};
+/// use oxmpl_witness::G;
+/// let mut p: oxmpl::geometric::RRTStar<RealVectorState, RealVectorStateSpace, G> =
+///     oxmpl::geometric::RRTStar::new(0.5, 0.0, 1.0, &PlannerConfig { seed: Some(1) });
+/// p.search_radius = 2.0; // public field
+/// ```
+pub struct WitnessTree;
+
+/// roadmap: private, and get_roadmap hands out an owned clone.
+/// ```compile_fail,E0616
+/// use oxmpl::base::{planner::PlannerConfig, space::RealVectorStateSpace, state::RealVectorState};
+/// use oxmpl_witness::G;
+/// let mut p: oxmpl::geometric::PRM<RealVectorState, RealVectorStateSpace, G> =
+///     oxmpl::geometric::PRM::new(0.1, 1.0, &PlannerConfig { seed: Some(1) });
+/// p.roadmap.clear(); // private field
+/// ```
+/// ```
+/// use oxmpl::base::{planner::PlannerConfig, space::RealVectorStateSpace, state::RealVectorState};
+/// use oxmpl_witness::G;
+/// let p: oxmpl::geometric::PRM<RealVectorState, RealVectorStateSpace, G> =
+///     oxmpl::geometric::PRM::new(0.1, 1.0, &PlannerConfig { seed: Some(1) });
+/// let mut copy = p.get_roadmap(); // an owned Vec: mutating it cannot reach the planner (p is not even `mut`)
+/// copy.clear();
+/// assert!(p.get_roadmap().is_empty());
+/// ```
+pub struct WitnessRoadmap;
+
+/// node: the fields of a roadmap node are private to the planner module.
+/// ```compile_fail,E0616
+/// use oxmpl::base::{planner::PlannerConfig, space::RealVectorStateSpace, state::RealVectorState};
+/// use oxmpl_witness::G;
+/// let p: oxmpl::geometric::PRM<RealVectorState, RealVectorStateSpace, G> =
+///     oxmpl::geometric::PRM::new(0.1, 1.0, &PlannerConfig { seed: Some(1) });
+/// let mut copy = p.get_roadmap();
+/// if let Some(n) = copy.first_mut() { n.edges.clear(); } // private field
+/// ```
+/// ```
+/// use oxmpl::base::{planner::PlannerConfig, space::RealVectorStateSpace, state::RealVectorState};
+/// use oxmpl_witness::G;
+/// let p: oxmpl::geometric::PRM<RealVectorState, RealVectorStateSpace, G> =
+///     oxmpl::geometric::PRM::new(0.1, 1.0, &PlannerConfig { seed: Some(1) });
+/// let mut copy = p.get_roadmap();
+/// if let Some(_n) = copy.first_mut() { }
+/// ```
+pub struct WitnessNode;
+
+/// fraction: the resolution fraction can only be changed through its (validating) setter.
+/// ```compile_fail,E0616
+/// let mut s = oxmpl::base::space::RealVectorStateSpace::new(1, Some(vec![(0.0, 1.0)])).unwrap();
+/// s.longest_valid_segment_fraction = 0.0; // private field
+/// ```
+/// ```
+/// let mut s = oxmpl::base::space::RealVectorStateSpace::new(1, Some(vec![(0.0, 1.0)])).unwrap();
+/// s.set_longest_valid_segment_fraction(0.5);
+/// ```
+pub struct WitnessFraction;
+
+use oxmpl::base::{error::StateSamplingError, goal::{Goal, GoalRegion, GoalSampleableRegion}, state::RealVectorState};
+/// A trivial goal type so that the planner types can be named.
+pub struct G;
+impl Goal<RealVectorState> for G { fn is_satisfied(&self, _s: &RealVectorState) -> bool { false } }
+impl GoalRegion<RealVectorState> for G { fn distance_goal(&self, _s: &RealVectorState) -> f64 { 0.0 } }
+impl GoalSampleableRegion<RealVectorState> for G {
+    fn sample_goal(&self, _r: &mut impl rand::Rng) -> Result<RealVectorState, StateSamplingError> {
+        Err(StateSamplingError::GoalRegionUnsatisfiable)
+    }
+}
+'''
+
+
+def run_witness(prop):
+    """build the witness crate against the repository under analysis and run its doctests (compile checks)"""
+    r = RuleResult(prop + '.witness', 'an external crate cannot write the private state the rules rely on (compile_fail doctests with compiling twins)')
+    repo = extract.REPO
+    wdir = os.path.join(extract.CACHE, 'witness')
+    os.makedirs(os.path.join(wdir, 'src'), exist_ok=True)
+    with open(os.path.join(wdir, 'Cargo.toml'), 'w') as fh:
+        fh.write('[package]\nname = "oxmpl_witness"\nversion = "0.0.0"\nedition = "2021"\n\n[workspace]\n\n'
+                 '[dependencies]\noxmpl = { path = "%s/oxmpl" }\nrand = "0.9"\n' % repo)
+    shutil.copy(os.path.join(repo, 'Cargo.lock'), os.path.join(wdir, 'Cargo.lock'))
+    with open(os.path.join(wdir, 'src', 'lib.rs'), 'w') as fh:
+        fh.write(WITNESS_LIB)
+    env = dict(os.environ, CARGO_NET_OFFLINE='true', CARGO_TARGET_DIR=os.path.join(extract.CACHE, 'witness-target'))
+    t0 = time.time()
+    p = subprocess.run(['cargo', '+nightly', 'test', '--doc', '--offline'], cwd=wdir, env=env,
+                       stdout=subprocess.PIPE, stderr=subprocess.STDOUT, text=True)
+    out = p.stdout
+    tests = re.findall(r'^test (src/lib.rs - (\w+) \(line \d+\)[^\n]*?) \.\.\. (\w+)', out, re.M)
+    want = WITNESS_PROPS.get(prop, [])
+    seen = 0
+    for (name, item, verdict) in tests:
+        key = item.replace('Witness', '').lower()
+        if want and key not in want:
+            continue
+        seen += 1
+        ok = verdict == 'ok'
+        r.inst('%s: %s' % (name, verdict), ok=ok, nontrivial='compile fail' in name)
+        if not ok:
+            r.violations.append(Violation(prop, prop + '.witness', 'witness', key,
+                                          'type-level witness %s no longer holds: private planner/space state became writable from outside '
+                                          '(or its compiling twin broke)' % name))
+    if seen == 0:
+        r.violations.append(Violation(prop, prop + '.witness', 'witness', 'none-ran',
+                                      'no witness doctest ran (build failure?):\n' + out[-1500:]))
+    r.notes.append('cargo +nightly test --doc: %d doctests in %.1fs' % (len(tests), time.time() - t0))
+    return r
+
+
+def run_mutants(prop, limit=None):
+    """mutation adequacy of the checker on the current tree (see module docstring)"""
+    r = RuleResult(prop + '.adequacy', 'each applicable seeded mutant of this property is caught by the quick check (checker non-vacuity on the current tree)')
+    sys.path.insert(0, os.path.join(VERIF, 'selftest'))
+    try:
+        cases = importlib.import_module('cases').CASES
+    except Exception as e:  # pragma: no cover
+        r.notes.append('cannot load selftest cases: %s' % e)
+        return r
+    mine = [c for c in cases if c['expect'] and any(x.startswith(prop + '.') for x in c['expect'])]
+    limit = int(os.environ.get('OXA_MUTANTS', limit or 6))
+    mine = mine[:limit]
+    if not mine:
+        return r
+    scratch = tempfile.mkdtemp(prefix='oxa-adequacy-', dir='/tmp')
+    repo = os.path.join(scratch, 'repo')
+    evid = os.path.join(scratch, 'evidence')
+    caught = missed = skipped = 0
+    try:
+        for c in mine:
+            if os.path.exists(repo):
+                shutil.rmtree(repo)
+            subprocess.run(['rsync', '-a', '--exclude', 'target', '--exclude', '.git', extract.REPO + '/', repo + '/'])
+            subprocess.run(['git', 'init', '-q'], cwd=repo)
+            ok_apply = True
+            for (f, old, new) in c['edits']:
+                pth = os.path.join(repo, f)
+                s = open(pth).read()
+                if s.count(old) != 1:
+                    ok_apply = False
+                    break
+                open(pth, 'w').write(s.replace(old, new))
+            if not ok_apply:
+                skipped += 1
+                r.notes.append('mutant %s does not apply to the current tree (skipped)' % c['name'])
+                continue
+            env = dict(os.environ, OXA_REPO=repo, OXA_EVIDENCE_DIR=evid, CARGO_NET_OFFLINE='true', VERIF_TIER='quick')
+            p = subprocess.run([os.path.join(VERIF, 'check'), prop, '--tier', 'quick'], env=env, cwd=VERIF,
+                               stdout=subprocess.PIPE, stderr=subprocess.STDOUT, text=True)
+            if 'cargo check under mirfacts failed' in p.stdout:
+                skipped += 1
+                r.notes.append('mutant %s does not compile on the current tree (skipped)' % c['name'])
+                continue
+            fired = set(re.findall(r'^  (C\d\d\.[\w-]+): ', p.stdout, re.M))
+            exp = {x for x in c['expect'] if x.startswith(prop + '.')}
+            ok = exp <= fired
+            caught += ok
+            missed += (not ok)
+            r.inst('mutant %s: expected %s, fired %s' % (c['name'], sorted(exp), sorted(fired)), ok=ok)
+            if not ok:
+                print('  WARNING: checker weakness: mutant %s not caught by %s' % (c['name'], prop))
+    finally:
+        shutil.rmtree(scratch, ignore_errors=True)
+    r.notes.append('mutants caught %d, missed %d, skipped %d' % (caught, missed, skipped))
+    return r
 
 
 def run(ctx, prop, mod):
-    return []
+    out = []
+    if prop in WITNESS_PROPS:
+        out.append(run_witness(prop))
+    if os.environ.get('OXA_REPO') is None and os.environ.get('OXA_NO_MUTANTS') is None:
+        out.append(run_mutants(prop))
+    if hasattr(mod, 'run_thorough'):
+        out += mod.run_thorough(ctx)
+    return out
